@@ -273,6 +273,12 @@ EXEC_SCRIPTS = {
     "parameter-shadows-global-list": "data = [1, 2, 3, 4]\ndef last(data):\n    return data[len(data) - 1]\nfew = [7, 8]\nwhile True:\n    v = last(few)\n    mon.write(v)\n    w = last(data)\n    mon.write(w)\n    sleep(1)\n",
     "rebind-list-in-branch-then-folded-len": "a = [1, 2, 3]\nc = 1\nif c > 0:\n    a = [4, 5]\nmon.write(a[len(a) - 1])\n",
     "rebind-list-after-use-in-main-loop": "a = [1, 2, 3]\nwhile True:\n    mon.write(a[len(a) - 1])\n    a = [9, 8]\n    sleep(1)\n",
+    "reassign-string-list-from-other-list-then-mutate": "names = ['a', 'b']\nshown = ['x', 'y']\nshown = names\nc = 'c'\nshown.append(c)\nmon.write(names[0])\nwhile True:\n    names.append(c)\n    names.remove(c)\n    shown.append('d')\n    shown.remove('d')\n    mon.write(shown[0])\n    mon.write(names[1])\n    sleep(1)\n",
+    "reassign-string-list-each-pass": "names = ['a', 'b']\nshown = ['x', 'y']\nwhile True:\n    shown = names\n    mon.write(shown[1])\n    names.append('q')\n    names.remove('q')\n    sleep(1)\n",
+    "reassign-float-list-from-other-list": "ws = [0.5, 1.5]\nvs = [9.5, 8.5]\nvs = ws\nvs.append(2.5)\nwhile True:\n    ws.append(3.5)\n    ws.remove(3.5)\n    mon.write(vs[0])\n    sleep(1)\n",
+    "reassign-from-call-returning-global-list": "a = [1, 2, 3]\nb = [0]\ndef current():\n    return a\nb = current()\nb.append(4)\nmon.write(a[0])\nwhile True:\n    b.append(7)\n    b.remove(7)\n    mon.write(a[2])\n    a.append(5)\n    a.remove(5)\n    sleep(1)\n",
+    "reassign-from-call-returning-parameter-list": "a = [1, 2, 3]\nb = [0]\ndef pick(xs):\n    return xs\nb = pick(a)\nb.remove(1)\nmon.write(a[0])\nwhile True:\n    b.append(7)\n    b.remove(7)\n    mon.write(a[1])\n    sleep(1)\n",
+    "reassign-from-literal-and-comprehension-each-pass": "b = [0]\nwhile True:\n    b = [1, 2]\n    b.append(3)\n    mon.write(b[2])\n    sleep(1)\n",
     "comprehension-then-index": "while True:\n    sq = [i * i for i in range(5)]\n    mon.write(sq[4])\n    mon.write(sq[-1])\n    sleep(1)\n",
     "list-passed-through-helper-index": "xs = [4, 5, 6]\ndef at(k):\n    return xs[k]\nj = 0\nwhile True:\n    v = at(j % 3)\n    mon.write(v)\n    j = j + 1\n    sleep(1)\n",
     "remove-until-short": "xs = [1, 2, 3, 4, 5, 6, 7]\nwhile True:\n    xs.remove(xs[0])\n    mon.write(xs[0])\n    mon.write(xs[-1])\n    sleep(1)\n",
